@@ -226,10 +226,6 @@ func (e *c14env) resolveRoles() bool {
 				subC = append(subC, fd)
 			case c14sig(sig, []func(types.Type) bool{strs, str}, []func(types.Type) bool{c14isError}):
 				unsubC = append(unsubC, fd)
-			case c14sig(sig, []func(types.Type) bool{str, c14isByte, str}, []func(types.Type) bool{c14isError}):
-				insC = append(insC, fd)
-			case c14sig(sig, []func(types.Type) bool{str, str}, []func(types.Type) bool{c14isError}):
-				remC = append(remC, fd)
 			}
 		case recv != nil && recv.Obj().Name() == "Session":
 			if c14sig(sig, nil, []func(types.Type) bool{strs, bytes, c14isError}) {
@@ -249,12 +245,114 @@ func (e *c14env) resolveRoles() bool {
 			}
 		}
 	}
+	// several methods of the level manager may share the work (get -> splitAndCache): the cache
+	// lookup is the outermost one, i.e. the one no other candidate calls
+	if len(getC) > 1 {
+		called := map[*ast.FuncDecl]bool{}
+		for _, fd := range getC {
+			g := flow.NewFunc(e.pkg, fd)
+			for _, call := range calls(fd.Body, false) {
+				fo := c14calleeOf(g, call)
+				for _, other := range getC {
+					if other != fd && fo != nil && fo == e.funcObj(other) {
+						called[other] = true
+					}
+				}
+			}
+		}
+		var outer []*ast.FuncDecl
+		for _, fd := range getC {
+			if !called[fd] {
+				outer = append(outer, fd)
+			}
+		}
+		getC2 = nil
+		for _, fd := range outer {
+			if r.split != nil && reachContains(funcOf(e.pkg, fd), 2, func(h *flow.Func, n ast.Node) bool {
+				call, ok := n.(*ast.CallExpr)
+				return ok && c14calleeOf(h, call) == r.split.obj
+			}) {
+				getC2 = append(getC2, fd)
+			}
+		}
+	}
 	r.get = e.pick("the validating level cache lookup", "get", getC2)
+	// insert / remove by what they do: the outermost function with a byte and a string parameter
+	// that records <node>.clients[..] = .. (itself or in a helper), resp. with a string parameter
+	// that deletes from <node>.clients; the batch operations (slice parameters) are not candidates
+	hasParam := func(sig *types.Signature, pred func(types.Type) bool) bool {
+		for i := 0; i < sig.Params().Len(); i++ {
+			if pred(sig.Params().At(i).Type()) {
+				return true
+			}
+		}
+		return false
+	}
+	var insAll, remAll []*ast.FuncDecl
+	e.decls(func(f *flow.Func, fd *ast.FuncDecl) {
+		o := e.funcObj(fd)
+		if o == nil {
+			return
+		}
+		sig := o.Type().(*types.Signature)
+		if hasParam(sig, bytes) || !hasParam(sig, str) {
+			return
+		}
+		if rn := e.recvNamed(fd); rn != nil && rn != mgr && rn != r.nodeT {
+			return
+		}
+		for _, b := range append(append([]*ast.FuncDecl{}, subC...), unsubC...) {
+			if b == fd {
+				return // a batch operation
+			}
+		}
+		stores, deletes := false, false
+		for _, g := range reach(f, 1) {
+			for _, w := range e.trieWrites(g, g.Body) {
+				if w.field != e.clientsF {
+					continue
+				}
+				if _, isAssign := w.at.(*ast.AssignStmt); isAssign {
+					stores = true
+				} else {
+					deletes = true
+				}
+			}
+		}
+		if stores && hasParam(sig, c14isByte) {
+			insAll = append(insAll, fd)
+		}
+		if deletes && !stores {
+			remAll = append(remAll, fd)
+		}
+	})
+	outermost := func(cands []*ast.FuncDecl) []*ast.FuncDecl {
+		called := map[*ast.FuncDecl]bool{}
+		for _, fd := range cands {
+			g := funcOf(e.pkg, fd)
+			for _, call := range calls(fd.Body, true) {
+				fo := c14calleeOf(g, call)
+				for _, other := range cands {
+					if other != fd && fo != nil && fo == e.funcObj(other) {
+						called[other] = true
+					}
+				}
+			}
+		}
+		var out []*ast.FuncDecl
+		for _, fd := range cands {
+			if !called[fd] {
+				out = append(out, fd)
+			}
+		}
+		return out
+	}
+	insC, remC = outermost(insAll), outermost(remAll)
 	r.fns["find"] = e.pick("TopicManager's matcher func(string) (map[string]byte, error)", "findSubscribers", findC)
 	r.fns["subscribe"] = e.pick("TopicManager's batch subscribe func([]string, []byte, string) error", "subscribe", subC)
 	r.fns["unsubscribe"] = e.pick("TopicManager's batch unsubscribe func([]string, string) error", "unsubscribe", unsubC)
-	r.fns["insert"] = e.pick("TopicManager's single insert func(string, byte, string) error", "insert", insC)
-	r.fns["remove"] = e.pick("TopicManager's single remove func(string, string) error", "remove", remC)
+	r.fns["insert"] = e.pick("the single-filter insert (records <node>.clients[client] = qos)", "insert", insC)
+	r.fns["remove"] = e.pick("the single-filter remove (deletes from <node>.clients)", "remove", remC)
 	r.fns["allSubscribes"] = e.pick("Session's subscription list func() ([]string, []byte, error)", "allSubscribes", allC)
 	if r.split == nil || r.get == nil {
 		return false
@@ -264,44 +362,24 @@ func (e *c14env) resolveRoles() bool {
 			return false
 		}
 	}
-	// level sources: get and its pure wrappers
-	r.sources[r.get.obj] = true
-	for changed := true; changed; {
-		changed = false
-		e.decls(func(f *flow.Func, fd *ast.FuncDecl) {
-			o := e.funcObj(fd)
-			if o == nil || r.sources[o] {
-				return
-			}
-			sig := o.Type().(*types.Signature)
-			if !c14sig(sig, []func(types.Type) bool{str}, []func(types.Type) bool{strs, c14isError}) {
-				return
-			}
-			rets, ok := 0, true
-			ast.Inspect(fd.Body, func(n ast.Node) bool {
-				if rs, isR := n.(*ast.ReturnStmt); isR {
-					rets++
-					if len(rs.Results) != 1 {
-						ok = false
-						return true
-					}
-					call, isC := ast.Unparen(rs.Results[0]).(*ast.CallExpr)
-					if !isC || len(call.Args) != 1 || !c14isParam(f, c14obj(f, call.Args[0])) {
-						ok = false
-						return true
-					}
-					if fo, isF := f.Callee(call).(*types.Func); !isF || !r.sources[fo] {
-						ok = false
-					}
-				}
-				return true
-			})
-			if ok && rets >= 1 {
-				r.sources[o] = true
-				changed = true
-			}
-		})
-	}
+	// level sources: every func(string) ([]string, error) whose reach contains the call of split
+	// (get, a helper it delegates to, and wrappers such as getLevels)
+	e.decls(func(f *flow.Func, fd *ast.FuncDecl) {
+		o := e.funcObj(fd)
+		if o == nil {
+			return
+		}
+		sig := o.Type().(*types.Signature)
+		if !c14sig(sig, []func(types.Type) bool{str}, []func(types.Type) bool{strs, c14isError}) {
+			return
+		}
+		if reachContains(f, 3, func(h *flow.Func, n ast.Node) bool {
+			call, ok := n.(*ast.CallExpr)
+			return ok && c14calleeOf(h, call) == r.split.obj
+		}) {
+			r.sources[o] = true
+		}
+	})
 	return true
 }
 
@@ -730,4 +808,127 @@ func (e *c14env) sessionTopicFns() (records, forgets map[*types.Func]bool) {
 		}
 	})
 	return
+}
+
+// ---------------------------------------------------------------------------------------
+// lock wrappers: `func (mgr *TopicManager) withWriteLock(f func() error) error { mgr.Lock(); defer mgr.Unlock(); return f() }`
+
+type c14wrapper struct {
+	param int  // index of the function-typed parameter
+	write bool // takes the write lock (else the read lock)
+}
+
+// lockWrappers finds the same-package functions that take the manager's lock, call their
+// function-typed parameter exactly once while holding it and hand its result back.
+func (e *c14env) lockWrappers() map[*types.Func]c14wrapper {
+	if e.wrappers != nil {
+		return e.wrappers
+	}
+	e.wrappers = map[*types.Func]c14wrapper{}
+	e.decls(func(f *flow.Func, fd *ast.FuncDecl) {
+		o := e.funcObj(fd)
+		if o == nil {
+			return
+		}
+		params := c14params(f)
+		pi := -1
+		for i, p := range params {
+			if sig, ok := p.Type().Underlying().(*types.Signature); ok && sig.Params().Len() == 0 {
+				if pi >= 0 {
+					return
+				}
+				pi = i
+			}
+		}
+		if pi < 0 {
+			return
+		}
+		var pcalls []*ast.CallExpr
+		locks := false
+		for _, call := range calls(fd.Body, true) {
+			if id, ok := ast.Unparen(call.Fun).(*ast.Ident); ok && f.Info.Uses[id] == params[pi] {
+				pcalls = append(pcalls, call)
+			}
+			if _, m := c14lockRecv(f, call, f.Callee(call)); m == "Lock" || m == "RLock" {
+				locks = true
+			}
+		}
+		if len(pcalls) != 1 || !locks {
+			return
+		}
+		// the parameter's result is what the wrapper returns
+		if fd.Type.Results != nil && len(fd.Type.Results.List) > 0 {
+			direct := false
+			ast.Inspect(fd.Body, func(n ast.Node) bool {
+				if r, ok := n.(*ast.ReturnStmt); ok && len(r.Results) == 1 && ast.Unparen(r.Results[0]) == ast.Expr(pcalls[0]) {
+					direct = true
+				}
+				return true
+			})
+			if !direct {
+				return
+			}
+		}
+		res := analyze(e.c, f, flow.Config{NoHavoc: true,
+			OnCall: func(st *flow.State, call *ast.CallExpr, callee types.Object, d bool) {
+				c14lockEvent(f, st, call, callee)
+			}})
+		if res == nil || len(res.At[pcalls[0]]) == 0 {
+			return
+		}
+		w, r := true, true
+		for _, st := range res.At[pcalls[0]] {
+			if !c14held(st, true) {
+				w = false
+			}
+			if !c14held(st, false) {
+				r = false
+			}
+		}
+		if r {
+			e.wrappers[o] = c14wrapper{param: pi, write: w}
+		}
+	})
+	return e.wrappers
+}
+
+// wrappedLit reports whether lit is the closure handed to a lock wrapper by call.
+func (e *c14env) wrappedLit(g *flow.Func, call *ast.CallExpr, lit *ast.FuncLit) (c14wrapper, bool) {
+	fo := c14calleeOf(g, call)
+	if fo == nil {
+		return c14wrapper{}, false
+	}
+	w, ok := e.lockWrappers()[fo]
+	if !ok || w.param >= len(call.Args) || ast.Unparen(call.Args[w.param]) != ast.Expr(lit) {
+		return c14wrapper{}, false
+	}
+	return w, true
+}
+
+// lockedBody: when the body of f is `return <wrapper>(func() T { ... })` (or the call as its only
+// statement) the closure is f's effective body, run under the wrapper's lock.
+func (e *c14env) lockedBody(f *flow.Func) (*flow.Func, c14wrapper, bool) {
+	if f == nil || f.Body == nil || len(f.Body.List) != 1 {
+		return nil, c14wrapper{}, false
+	}
+	var call *ast.CallExpr
+	switch s := f.Body.List[0].(type) {
+	case *ast.ReturnStmt:
+		if len(s.Results) == 1 {
+			call, _ = ast.Unparen(s.Results[0]).(*ast.CallExpr)
+		}
+	case *ast.ExprStmt:
+		call, _ = ast.Unparen(s.X).(*ast.CallExpr)
+	}
+	if call == nil {
+		return nil, c14wrapper{}, false
+	}
+	for _, a := range call.Args {
+		if lit, ok := ast.Unparen(a).(*ast.FuncLit); ok {
+			if w, ok := e.wrappedLit(f, call, lit); ok {
+				return f.Lit(lit), w, true
+			}
+		}
+	}
+	return nil, c14wrapper{}, false
 }
